@@ -109,11 +109,11 @@ def _yaml_call(rng, profile):
 def _fault(rng):
     seam = rng.pick(["solve", "solve", "write", "read", "abort", "clock"])
     if seam == "solve":
-        return {"seam": "solve", "at": rng.randrange(9), "kind": rng.pick(["exec", "status:-1", "status:0", "status:-2", "slow"])}
+        return {"seam": "solve", "at": rng.randrange(9), "kind": rng.pick(["exec", "status:-1", "status:0", "status:-2", "slow", "iterate:-1", "iterate:0"])}
     if seam == "write":
         return {"seam": "write", "at": rng.randrange(3), "kind": rng.pick(["enospc", "eio", "eacces", "short"]), "k": rng.randrange(400)}
     if seam == "read":
-        return {"seam": "read", "at": rng.randrange(15), "kind": rng.pick(["enoent", "eio", "parse"])}
+        return {"seam": "read", "at": rng.randrange(15), "kind": rng.pick(["enoent", "eio", "parse", "truncated"])}
     if seam == "abort":
         return {"seam": "abort", "at": 1 + int(10 ** rng.uniform(1, 6.4))}
     return {"seam": "clock", "at": rng.randrange(6), "kind": "jump", "seconds": rng.pick([-86400 * 400, -3600, 59, 3600, 86400 * 31])}
